@@ -87,11 +87,17 @@ def drive(ctx, args):
 def h_roundtrip(mode, max_bytes):
     rng = other_ranges()
 
-    def mk(n, nl):
+    # partition of the first byte's values: only there to split long explorations into parallel jobs
+    PARTS = [(0, 6), (7, 7), (8, 8), (9, 9), (11, 11), (12, 12), (13, 13), (14, 0x1f), (0x20, 0x5b), (0x5c, 0x5c), (0x5d, 0x7e),
+             (0x7f, 0x7f), (0x80, 0xbf), (0xc0, 0xc1), (0xc2, 0xdf), (0xe0, 0xef), (0xf0, 0xf4), (0xf5, 0xff)]
+
+    def mk(n, nl, part=None):
         def setup(ctx):
             b = ctx.sym_bytes("b", n)
             for x in b.items:
                 ctx.add(x.z() != 10)       # a line: no inner newline
+            if part is not None:
+                ctx.add(z3.And(z3.UGE(b.items[0].z(), part[0]), z3.ULE(b.items[0].z(), part[1])))
             items = list(b.items) + ([SInt(10, "u8")] if nl else [])
             ctx.notes["body"] = list(b.items)
             return [escaper(mode), Slice(items, "u8")]
@@ -137,7 +143,13 @@ def h_roundtrip(mode, max_bytes):
             if text.encode() != body:
                 return True, "%s mode writes %r (no marker) for %r" % (mode_s, text, line), "escape:plain-differs:%s" % mode_s.lower()
         return False, "", ""
-    inputs = [("bytes=%d newline=%s" % (n, nl), mk(n, nl)) for n in range(0, max_bytes + 1) for nl in (False, True)]
+    inputs = []
+    for n in range(0, max_bytes + 1):
+        for nl in (False, True):
+            if n >= 3:
+                inputs += [("bytes=%d newline=%s first-byte=%02x..%02x" % (n, nl, p[0], p[1]), mk(n, nl, p)) for p in PARTS]
+            else:
+                inputs.append(("bytes=%d newline=%s" % (n, nl), mk(n, nl)))
     h = e2.Harness("escape_roundtrip_%s" % mode.lower(), drive, inputs, post, native="escaped_expectation", judge=judge,
                    describe="printable output; escaper ∘ decoder = identity (marked lines) / text == line (unmarked lines)",
                    bound="all byte lines of <= %d bytes (any byte values, valid and invalid UTF-8), with and without final newline, %s mode" % (max_bytes, mode))
@@ -153,7 +165,7 @@ def run(pid, tier):
     prog = load_program(mir, e2.REPO + "/src")
     NAT = e2.NativeEval()
     rnd = random.Random(seed())
-    n = 3 if tier == "quick" else 4
+    n = 2 if tier == "quick" else 3
     for mode in ("Ascii", "Unicode"):
         h = h_roundtrip(mode, n)
         # translator validation: the interpreter on concrete lines == the native escaper
